@@ -1,6 +1,6 @@
 """C14 / C15 / C16: bucket schemas and key paths.  Schema.tla / PathJail.tla cases replayed into the real DataService."""
 PROPS = ["C14", "C15", "C16"]
-READY = False
+READY = True
 CLAIMS = {
  "C14": dict(technique="TLA+ model of Writer.WriteCSM (map-order loop, length check, GetMissingAndTypeCoercionColumns set algebra, queue-then-flush) checked by TLC against 'names match => stored by name, else nothing changes'; every TLC-enumerated schema pair / two-bucket request replayed into the real writer",
              text="TLC enumerates every pair <bucket schema, input schema> of <=3 columns over 3 names and 2 type ids (missing, extra, renamed, reordered, retyped, bucket absent) and every two-bucket request over the 2-name universe in both map iteration orders; it proves that the implementation-shaped check accepts exactly the name-matching pairs, that its coercion list is exactly the retyped columns and that the pure implementation satisfies the property. Every case is concretised (type ids -> ordered pairs of the 10 numeric wire types, boundary values) and replayed through DataService.Write / Writer.WriteCSM; error, contents of every bucket of the request right after the request and after a later successful write are compared with the property's answer.",
